@@ -74,6 +74,9 @@ fn check_bignum_pair(ctx: &mut Ctx, a: u64, b: u64) {
     ctx.eval();
     ctx.bucket("bignum.pair");
     h2(ctx, "bn", a, b);
+    if a > 1 << 40 && b > 1 {
+        ctx.sample("bignum-pair", || json!({"ops": "checked_add/sub/mul, clamped_sub, div_floor, compare, max", "a": a.to_string(), "b": b.to_string()}));
+    }
     let (x, y) = (BigNum::from(a), BigNum::from(b));
     let r = guard(|| {
         let mut bad: Vec<(String, String)> = vec![];
@@ -487,7 +490,8 @@ fn report(ctx: &mut Ctx, r: Result<Vec<(String, String)>, PanicRec>, what: &str,
             let mut d = detail.clone();
             d["loc"] = json!(p.loc);
             d["msg"] = json!(p.msg);
-            ctx.violation(&format!("{}/{}", what, p.sig()), d);
+            d["entry"] = json!(what);
+            ctx.violation(&p.sig(), d);
         }
     }
 }
@@ -666,6 +670,9 @@ fn bigint_random(ctx: &mut Ctx, r: &mut Rng, _i: u64) {
     };
     let e = r.below(9) as u32;
     ctx.nontrivial_bytes("bigint", format!("{}|{}", a, b).as_bytes());
+    if a.bits() > 100 {
+        ctx.sample("bigint-pair", || json!({"a": a.to_string(), "b": b.to_string(), "exp": e}));
+    }
     let res = guard(|| {
         let mut bad: Vec<(String, String)> = vec![];
         let (x, y) = match (bi(&a), bi(&b)) {
@@ -912,6 +919,9 @@ fn value_random(ctx: &mut Ctx, r: &mut Rng, _i: u64) {
         ctx.nontrivial_bytes("value", format!("{:?}{:?}{:?}", ma, mb, mc).as_bytes());
     }
     let detail = json!({"a": format!("{:?}", ma), "b": format!("{:?}", mb), "c": format!("{:?}", mc)});
+    if ma.assets.len() > 1 && mb.assets.len() > 1 {
+        ctx.sample("value-triple", || detail.clone());
+    }
     let res = guard(|| {
         let mut bad: Vec<(String, String)> = vec![];
         let (a, b, c) = (build_value(&ma), build_value(&mb), build_value(&mc));
@@ -1077,6 +1087,9 @@ fn mint_case(ctx: &mut Ctx, r: &mut Rng, _i: u64) {
     }
     ctx.nontrivial_bytes("mint", format!("{:?}", ops).as_bytes());
     let detail = json!({"ops": format!("{:?}", ops)});
+    if ops.len() > 2 {
+        ctx.sample("mint-ops", || detail.clone());
+    }
     // ---- MintBuilder: add_asset accumulates, set_asset replaces; build must be exact or error
     let res = guard(|| {
         let mut bad: Vec<(String, String)> = vec![];
